@@ -363,6 +363,8 @@ func step(line string) string {
 		return doSmap(f[1:])
 	case f[0] == "BUILD":
 		return doBuild(f[1:])
+	case f[0] == "SV" && len(f) == 4:
+		return f[3] // the engine's answer was computed by the generator (specification validation, no xjs code involved)
 	}
 	return "bad-op"
 }
